@@ -159,7 +159,7 @@ class Op(metaclass=OpMeta):
 
     def __call__(self, *args, **kwargs):
         global _TRACE
-        raw_args = args
+        raw_args, raw_kwargs = args, kwargs
 
         # Normalize args, kwargs.
         cls = type(self)
@@ -179,6 +179,12 @@ class Op(metaclass=OpMeta):
             try:
                 trace, _TRACE = _TRACE, None
                 result = fn(*args, **kwargs)
+                if raw_kwargs:
+                    # Keyword arguments must reach the trace: record the normalized
+                    # positional form (kwargs are then necessarily empty or unsupported).
+                    if kwargs:
+                        raise NotImplementedError("tracing keyword-only op arguments")
+                    raw_args = args
                 trace.setdefault(id(result), (result, self, raw_args))
             finally:
                 _TRACE = trace
